@@ -46,6 +46,8 @@ Clauses(e) ==
  \cup (IF val /\ ~(f.eqFreshBefore => f.eqFreshAfter) THEN {"C08:no-longer-equals-fresh-copy"} ELSE {})
  \cup (IF val /\ ~SameOutcome(e.out, e.again) THEN {"C08:not-repeatable"} ELSE {})
  \cup (IF val /\ ~SameOutcome(e.out, e.fresh) THEN {"C13:differs-from-fresh-element"} ELSE {})
+ \cup (IF val /\ ~SameOutcome(e.out, e.freshspec)
+       THEN {"C13:differs-from-fresh-element-of-the-specified-configuration"} ELSE {})
  \cup (IF ~val /\ ~HeapSame(Expected(e), e.post) THEN {"C13:reconfiguration-not-applied"} ELSE {})
  \cup (IF e.x \in {"D", "F"} /\ ~ElemSame(e.pre["C"], e.post["C"]) THEN {"C15:parent-changed"} ELSE {})
  \cup (IF e.x \in {"D", "F"} /\ ~f.parentObsSame THEN {"C15:parent-behaviour-changed"} ELSE {})
